@@ -44,7 +44,7 @@ var faceLabel = map[uint64]string{fwsim.L1: "L1", fwsim.N2: "N2", fwsim.N3: "N3"
 type iOp struct {
 	face  uint64
 	name  string
-	nonce string // fresh | dup (the latest nonce issued for the name) | old (the one issued before that) | none
+	nonce string // fresh | dup (the latest nonce issued for the name) | old (the one issued before that) | none | sib (the latest nonce issued for the TWIN name, see twinOf)
 	hl    int    // -1 absent
 	hint  string // "" | in | out
 	nh    string // "" | N2 | self | missing
@@ -251,6 +251,25 @@ var slices = map[string]slice{
 		tops: []time.Duration{100 * time.Millisecond, 600 * time.Millisecond, 5 * time.Second},
 		fops: []fOp{{kind: "rem", prefix: "/a", face: fwsim.N3}, {kind: "add", prefix: "/a", face: fwsim.L5, cost: 1}},
 	},
+	// names that differ in the TYPE of one component only: the generic component x (type 8), the
+	// keyword component 32=x and 264=x, whose type equals 8 modulo 256. They are three different
+	// names: each has its own pending Interest, its own dead nonces and its own longest-prefix FIB
+	// entry (a route is registered under one of the typed names and added/removed under another
+	// between packets). Fresh and repeated nonces from a local and a non-local face, and the nonce
+	// last issued for the twin name ("sib": equal nonces under different names are unrelated).
+	"ctype": {
+		routes: []fwsim.Route{{Prefix: "/a", Face: fwsim.N2, Cost: 1}, {Prefix: "/a", Face: fwsim.N3, Cost: 2}, {Prefix: "/a/264=x", Face: fwsim.N4, Cost: 1}},
+		iops: prod([]uint64{fwsim.L1, fwsim.N3}, []string{"/a/x", "/a/264=x", "/a/32=x"}, func(f uint64, n string) []iOp {
+			out := []iOp{{face: f, name: n, nonce: "fresh", hl: -1}, {face: f, name: n, nonce: "dup", hl: -1}}
+			if f == fwsim.N3 {
+				out = append(out, iOp{face: f, name: n, nonce: "sib", hl: -1})
+			}
+			return out
+		}),
+		dops: []dOp{{fwsim.N2, "/a/x", "none"}, {fwsim.N4, "/a/264=x", "none"}, {fwsim.N2, "/a/32=x", "none"}},
+		tops: []time.Duration{100 * time.Millisecond, 600 * time.Millisecond, 5 * time.Second},
+		fops: []fOp{{kind: "rem", prefix: "/a/264=x", face: fwsim.N4}, {kind: "add", prefix: "/a/32=x", face: fwsim.N4, cost: 1}},
+	},
 	// an ad-hoc face that is both a downstream and a next hop (sending back is allowed there),
 	// equal-cost ties, a next hop that is also a downstream of the same Interest
 	"adhoc": {
@@ -264,6 +283,10 @@ var slices = map[string]slice{
 	},
 }
 
+// twinOf: the name whose latest nonce a "sib" Interest carries (names that differ in the type of
+// one component only).
+var twinOf = map[string]string{"/a/x": "/a/264=x", "/a/264=x": "/a/x", "/a/32=x": "/a/x"}
+
 // ---- system ----
 
 type sys struct {
@@ -275,6 +298,7 @@ type sys struct {
 	allOps  []explore.Op
 	uni     bool
 	old     bool // the alphabet repeats the nonce before the latest one
+	sib     bool // the alphabet repeats, under one name, the latest nonce issued for its twin name
 }
 
 type inst struct {
@@ -331,6 +355,7 @@ func build(cfgName string) explore.System {
 	s.cfg = fwsim.Config{Routes: slc.routes, Regions: regions, DnlLifetime: slc.dnlLife}
 	for _, o := range slc.iops {
 		s.old = s.old || o.nonce == "old"
+		s.sib = s.sib || o.nonce == "sib"
 	}
 	switch st {
 	case "br":
@@ -478,6 +503,11 @@ func (s *sys) Ops(i any) []explore.Op {
 				continue
 			}
 		}
+		if d.i != nil && d.i.nonce == "sib" {
+			if _, ok := in.ref.lastNonce[twinOf[d.i.name]]; !ok {
+				continue
+			}
+		}
 		if d.d != nil && d.d.tok == "echo0" && len(in.live) < 1 {
 			continue
 		}
@@ -535,6 +565,8 @@ func (s *sys) step(in *inst, op explore.Op) (v []report.Violation) {
 			nonce = r.lastNonce[o.name]
 		case "old":
 			nonce = r.prevNonce[o.name]
+		case "sib":
+			nonce = r.lastNonce[twinOf[o.name]]
 		case "none":
 			hasNonce = false
 		}
@@ -651,6 +683,14 @@ func (s *sys) Canon(i any) string {
 		if p, ok := r.prevNonce[name]; ok && p == n {
 			return "P"
 		}
+		if s.sib {
+			// a nonce stored under one name that a "sib" or "dup" Interest can still repeat
+			for _, m := range []string{"/a/264=x", "/a/32=x", "/a/x"} {
+				if l, ok := r.lastNonce[m]; ok && l == n {
+					return "L@" + m
+				}
+			}
+		}
 		return "o"
 	}
 	var b strings.Builder
@@ -696,6 +736,21 @@ func (s *sys) Canon(i any) string {
 	}
 	sort.Strings(nn)
 	_, dnlQ := table.VerifDnlDump(in.sim.Thread.VerifDnl())
+	// the pair (name, latest nonce of the twin name) a "sib" Interest carries: whether it arrived
+	// before, whether the dead nonce list holds it and when its record falls due
+	sibInfo := func(n string) string {
+		tw, ok := r.lastNonce[twinOf[n]]
+		if !ok {
+			return ""
+		}
+		x := fmt.Sprintf(" S:%v:%v", r.seenPair[pairKey(n, tw)], in.sim.DnlHas(fwsim.Name(n), tw))
+		for _, it := range dnlQ {
+			if it.Key == table.VerifDnlKey(fwsim.Name(n), tw) {
+				x += fmt.Sprintf(" qS@%s", fwsim.Saturate(time.Duration(it.Prio-now.UnixNano()), -1, 7*time.Second))
+			}
+		}
+		return x
+	}
 	for _, n := range nn {
 		fmt.Fprintf(&b, "N[%s", n)
 		if t, ok := r.deadSince[n]; ok {
@@ -715,7 +770,18 @@ func (s *sys) Canon(i any) string {
 				fmt.Fprintf(&b, " qP@%s", fwsim.Saturate(time.Duration(it.Prio-now.UnixNano()), -1, 7*time.Second))
 			}
 		}
+		if s.sib {
+			b.WriteString(sibInfo(n))
+		}
 		b.WriteString("]")
+	}
+	if s.sib {
+		// ... also for names no Interest was issued for yet
+		for _, n := range []string{"/a/264=x", "/a/32=x", "/a/x"} {
+			if _, own := r.lastNonce[n]; !own {
+				b.WriteString("N[" + n + sibInfo(n) + "]")
+			}
+		}
 	}
 	cn := make([]string, 0, len(r.cache))
 	for n := range r.cache {
@@ -763,18 +829,26 @@ func configs(th bool) []explore.Config {
 		dnl("full", "6s", 10, false) // reaches its fixpoint at depth 9
 		dnl("full", "600ms", 10, false)
 		dnl("tiny", "6s", 6, true)
+		dnl("typed", "6s", 10, false)
+		dnl("burst", "6s", 6, false)
 	} else {
 		dnl("full", "6s", 12, false)
 		dnl("full", "600ms", 12, false)
 		dnl("full", "100ms", 10, false)
 		dnl("tiny", "6s", 7, true)
 		dnl("tiny", "600ms", 7, true)
+		dnl("typed", "6s", 12, false)
+		dnl("typed", "600ms", 12, false)
+		dnl("burst", "6s", 8, false)
+		dnl("burst", "600ms", 8, false)
 	}
 	if !th {
 		// every slice under both strategies; cache and FIB implementation rotate so that each of
 		// the eight combinations is used by at least one slice (route: universe choice + 3 steps)
 		add("dead", "br", "cs0", "tree", 10)
 		add("dead", "mc", "cs1", "ht", 9)
+		add("ctype", "br", "cs0", "ht", 5)
+		add("ctype", "mc", "cs1", "tree", 5)
 		add("nexthop", "br", "cs1", "tree", 7)
 		add("nexthop", "mc", "cs0", "ht", 7)
 		add("adhoc", "br", "cs0", "tree", 5)
@@ -815,6 +889,7 @@ func configs(th bool) []explore.Config {
 				add("nexthop", st, cs, fib, 8)
 				add("adhoc", st, cs, fib, 6)
 				add("nonce", st, cs, fib, 6)
+				add("ctype", st, cs, fib, 6)
 				add("hint", st, cs, fib, 5)
 				add("hint", st, cs, fib+" regions=/r/site,/r", 5)
 				add("hint", st, cs, fib+" regions=/r,/r/site", 4)
@@ -844,18 +919,18 @@ func main() {
 			for _, c := range []struct {
 				cfg   string
 				depth int
-			}{{"nonce br cs0 tree", 3}, {"hint mc cs0 tree", 2}, {"hop mc cs0 tree", 2}, {"nexthop br cs0 tree", 3}, {"adhoc mc cs0 tree", 3}, {"dead br cs0 tree", 4}, {"dnl full L=6s", 4}, {"dnl tiny L=600ms", 6}} {
+			}{{"nonce br cs0 tree", 3}, {"hint mc cs0 tree", 2}, {"hop mc cs0 tree", 2}, {"nexthop br cs0 tree", 3}, {"adhoc mc cs0 tree", 3}, {"dead br cs0 tree", 4}, {"ctype br cs0 ht", 3}, {"dnl full L=6s", 4}, {"dnl typed L=6s", 4}, {"dnl burst L=6s", 4}, {"dnl tiny L=600ms", 6}} {
 				o[fmt.Sprintf("%s (all histories of length %d, before de-duplication)", c.cfg, c.depth)] = sweep(rep, c.cfg, c.depth)
 			}
 			cov["oracle_branches_exercised"] = o
 		},
-		Rule: "BFS over histories of Interest arrivals (names /a,/a/b,/c; nonce fresh|repeated|absent; hop limit absent|0|1|2; forwarding hint none|in-region|in-nested-region|out-of-region|(out,in)|(in,out)|(out,out'), producer regions [/r], [/r/site,/r], [/r,/r/site]; NextHopFaceId none|N2|self|missing on a face with and one without consumer-controlled forwarding; local, non-local and ad-hoc arrival faces), Data arrivals (by name, echoing a live token), clock steps 100/400/600 ms and 5 s, and FIB/strategy changes between packets (AddRoute, RemoveRoute, SetStrategy, UnsetStrategy) on one real fw.Thread with real PIT-CS, dead nonce list, FIB (tree / hash table) and strategies; a dead-nonce slice (one name, nonce fresh|latest|the one before the latest from two faces, Data, clock steps 100/600 ms, dead nonce list configured with a 1 s lifetime) explored to depth 9-10 (thorough: 13, and to depth 7 without de-duplication); forwarding hints with two delegations in either order; FIB universes: all 81 subsets of {(/,N2),(/a,N2),(/a,N3),(/a/b,N4)} with costs {1,2}, each with and without a sibling route (/c,N4), as first step of the route slice, every ordered pair and triple of next-hop costs from {0,1,2^31,2^32,2^63-1,2^63,2^64-1} as first step of the cost slice, plus fixed FIBs with ties, a local and an ad-hoc next hop; every Interest SendPacket is compared with a three-valued reference (C02.nh/noback/best/first/drop/suppress/token); states de-duplicated on reference + white-box PIT-CS dump + FIB dump + dead-nonce expiry-queue items of repeatable nonces. Separately, the real table.DeadNonceList on its own (dnl.go): histories of Insert (2 names x 2 nonces), clock steps 0.4/0.7/1.0 x the configured lifetime (6 s, 600 ms; thorough also 100 ms) with and without a reaper pass, RemoveExpiredEntries alone, Find of every key after every step, against a three-valued record-lifetime reference (C02.drop: recorded at t => found before t+L; C02.first: never recorded => not found), with de-duplication (to the fixpoint, reached at depth 9) and as a history search without de-duplication over a two-key alphabet (depth 6 / 7)",
+		Rule: "BFS over histories of Interest arrivals (names /a,/a/b,/c, and /a/x,/a/264=x,/a/32=x which differ in the TYPE of one component only, with a FIB entry under one typed name and routes added/removed under another, and the latest nonce of one name repeated under its twin name; nonce fresh|repeated|absent; hop limit absent|0|1|2; forwarding hint none|in-region|in-nested-region|out-of-region|(out,in)|(in,out)|(out,out'), producer regions [/r], [/r/site,/r], [/r,/r/site]; NextHopFaceId none|N2|self|missing on a face with and one without consumer-controlled forwarding; local, non-local and ad-hoc arrival faces), Data arrivals (by name, echoing a live token), clock steps 100/400/600 ms and 5 s, and FIB/strategy changes between packets (AddRoute, RemoveRoute, SetStrategy, UnsetStrategy) on one real fw.Thread with real PIT-CS, dead nonce list, FIB (tree / hash table) and strategies; a dead-nonce slice (one name, nonce fresh|latest|the one before the latest from two faces, Data, clock steps 100/600 ms, dead nonce list configured with a 1 s lifetime) explored to depth 9-10 (thorough: 13, and to depth 7 without de-duplication); forwarding hints with two delegations in either order; FIB universes: all 81 subsets of {(/,N2),(/a,N2),(/a,N3),(/a/b,N4)} with costs {1,2}, each with and without a sibling route (/c,N4), as first step of the route slice, every ordered pair and triple of next-hop costs from {0,1,2^31,2^32,2^63-1,2^63,2^64-1} as first step of the cost slice, plus fixed FIBs with ties, a local and an ad-hoc next hop; every Interest SendPacket is compared with a three-valued reference (C02.nh/noback/best/first/drop/suppress/token); states de-duplicated on reference + white-box PIT-CS dump + FIB dump + dead-nonce expiry-queue items of repeatable nonces. Separately, the real table.DeadNonceList on its own (dnl.go): histories of Insert (2 names x 2 nonces), clock steps 0.4/0.7/1.0 x the configured lifetime (6 s, 600 ms; thorough also 100 ms) with and without a reaper pass, RemoveExpiredEntries alone, Find of every key after every step, against a three-valued record-lifetime reference (C02.drop: recorded at t => found before t+L; C02.first: never recorded => not found), with de-duplication (to the fixpoint, reached at depth 9) and as a history search without de-duplication over a two-key alphabet (depth 6 / 7); the same search over keys whose names differ in the type of one component only (/a/x, /a/264=x, /a/32=x with one nonce: variant typed, fixpoint at depth 8) and with a burst step that records 205 distinct nonces at once, more than two reaper passes remove (the pass stops after 100), every one of them looked up after every step (variant burst, depth 6 / 8)",
 		Assumptions: []string{
 			"faces are simulated at the dispatch.Face seam (verif/harness/fwsim): a received frame becomes a defn.Pkt exactly as NDNLPLinkService.handleIncomingFrame + dispatchInterest/dispatchData build it; NextHopFaceId is honoured only on faces with local fields enabled; one forwarding thread (id 0)",
 			"'usable' is three-valued: a next hop equal to a point-to-point arrival face is unusable (C02.noback); a next hop that is the ad-hoc arrival face, that itself holds an in-record of the same PIT entry, or that is non-local while the decremented hop limit is 0, may or may not be used; every other next hop of the LPM entry must count as usable",
-			"WHICH nonces are recorded as dead is read from the real dead nonce list before the arrival (the property text does not say when a nonce is to be recorded, so no own 'must be dead by now' set is kept: e.g. whether the replaced nonce of an aggregated retransmission is recorded is not judged); HOW LONG a record lasts is not adopted: a (name, nonce) first seen in the list at t, or inserted into the list on its own while not listed, must be found until t + the configured lifetime; a report of an entry that is already listed may or may not extend it (the shipped code keeps the older expiry); when records disappear is left to C08; 'still pending from another face' = an unexpired record of the same PIT entry (name, selectors, forwarding hint) in the reference; same-nonce retransmissions from the same face, repeated nonces that are neither dead nor pending, retransmissions outside the suppression window, and retransmissions that carry NextHopFaceId may or may not be forwarded",
+			"WHICH nonces are recorded as dead is read from the real dead nonce list before the arrival, and believed only for a (name, nonce) that arrived in an Interest before (a nonce cannot have been recorded as dead for a name no Interest carried it under; an Interest with a never-seen pair is judged like any other) (the property text does not say when a nonce is to be recorded, so no own 'must be dead by now' set is kept: e.g. whether the replaced nonce of an aggregated retransmission is recorded is not judged); HOW LONG a record lasts is not adopted: a (name, nonce) first seen in the list at t, or inserted into the list on its own while not listed, must be found until t + the configured lifetime; a report of an entry that is already listed may or may not extend it (the shipped code keeps the older expiry); when records disappear is left to C08; 'still pending from another face' = an unexpired record of the same PIT entry (name, selectors, forwarding hint) in the reference; same-nonce retransmissions from the same face, repeated nonces that are neither dead nor pending, retransmissions outside the suppression window, and retransmissions that carry NextHopFaceId may or may not be forwarded",
 			"whether Data consumes a pending Interest and when expired records disappear is adopted from the white-box PIT dump (C01 and C08 judge that); upstream transmission times and nonces are tracked from the observed sends only, never from the forwarder's out-records",
-			"equal canonical state (reference entries with record/transmission ages saturated at expiry and at the 500 ms window, reference FIB and strategy choices, per-name nonce and dead-nonce status, cache contents, private PIT-CS dump with queue priorities, private FIB dump) implies equal futures",
+			"equal canonical state (reference entries with record/transmission ages saturated at expiry and at the 500 ms window, reference FIB and strategy choices, per-name nonce and dead-nonce status (in the ctype slice also for the pair name + latest nonce of the twin name: arrived before, listed, queue item), cache contents, private PIT-CS dump with queue priorities, private FIB dump) implies equal futures",
 		},
 	})
 }
